@@ -470,19 +470,19 @@ class LoaderModel(explorer.Model):
                     ok = False
                     continue
             ctx.count('differential_comparisons')
-            gw, gn = gen_facts(xtuml, e.replica), gen_facts(xtuml, e.m)
-            if gw != gn:
-                bad('generator-differs-from-fresh-loader', 'the id generator of metamodel %d (built after chunks %s, own mutations '
-                    '%s) is %s, but %s in a fresh loader fed the same chunks and built the same way' %
-                    (k, e.chunks, json.dumps([o[2:] for o in e.muts]), gn, gw), gw, gn)
-                ok = False
-                continue
             want = self.obs(xtuml, e.replica)
             d = first_diff(want, now)
             if d:
                 kind = 'later-build' if (op[0] == 'build' and k == len(w.mms) - 1 and k > 0) else 'differs-from-fresh-loader'
                 bad(kind, 'metamodel %d (built after chunks %s, own mutations %s) differs from a fresh loader fed the same '
                     'chunks with the same mutations: %s' % (k, e.chunks, json.dumps([o[2:] for o in e.muts]), d), want, now)
+                ok = False
+                continue
+            gw, gn = gen_facts(xtuml, e.replica), gen_facts(xtuml, e.m)
+            if gw != gn:
+                bad('generator-differs-from-fresh-loader', 'the id generator of metamodel %d (built after chunks %s, own mutations '
+                    '%s) is %s, but %s in a fresh loader fed the same chunks and built the same way' %
+                    (k, e.chunks, json.dumps([o[2:] for o in e.muts]), gn, gw), gw, gn)
                 ok = False
         if op[0] == 'build' and got == 'ok':
             ctx.count('builds_compared')
@@ -607,7 +607,9 @@ def coverage(ctx):
         distinct_outcomes=ctx.nd('outcomes'),
         rule='distinct_nontrivial = canonical states (expanded) holding at least two live metamodels built from the one loader '
              'of which at least one was mutated; in every state every enabled input / build / mutation is executed and after it '
-             'every live metamodel is compared (non-interference + fresh-loader replica)',
+             'every live metamodel is compared (non-interference + fresh-loader replica, incl. the id its generator hands '
+             'out next); states / transitions include the generator family (same search, every pattern of explicit / default '
+             'id generators over the builds, to its own depth bound)',
         differential_comparisons=ctx.n('differential_comparisons'),
         noninterference_comparisons=ctx.n('noninterference_comparisons'),
         builds_compared=ctx.n('builds_compared'),
